@@ -1,10 +1,66 @@
-"""C17 -- decided on the serial build model: theorems in coq/props/C17.v, tie and
-oracles in lib/serial_check.py (see its TABLE entry)."""
+"""C17 -- redo-ood/targets/sources are safe over-approximations and change
+nothing: theorems in coq/props/C17.v; tie and oracles in lib/serial_check.py;
+plus the paired-history oracle: every history is also run WITHOUT its query
+commands on the implementation and the remaining steps must behave the same;
+and the lower bound: whatever a following redo-ifchange runs was listed by redo-ood."""
+import common
+import e2e
+import serial
 import serial_check
 
 
+def paired(run_):
+    lines = run_["lines"]
+    out = {"violations": [], "evaluations": 0, "pairs": 0, "lower_bound_checked": 0}
+    stripped, idx = [], []
+    for i, l in enumerate(lines):
+        st = serial.steps_of(l)
+        if any(t[0] == "C" and t[1] in ("ood", "targets", "sources") for t in st):
+            keep = [t for t in st if not (t[0] == "C" and t[1] in ("ood", "targets", "sources"))]
+            stripped.append("P %d ; %s" % (e2e.project_depth(), " ; ".join(" ".join(t) for t in keep)))
+            idx.append(i)
+    from concurrent.futures import ThreadPoolExecutor
+    with ThreadPoolExecutor(max_workers=common.NCPU) as ex:
+        reals2 = list(ex.map(lambda il: e2e.run_real(run_["bindir"], il[1], "q%d" % il[0]), enumerate(stripped)))
+    out["evaluations"] = len(stripped)
+    for i, l2, r2 in zip(idx, stripped, reals2):
+        out["pairs"] += 1
+        st = serial.steps_of(lines[i])
+        r1 = [x for t, x in zip(st, run_["reals"][i]) if not (t[0] == "C" and t[1] in ("ood", "targets", "sources"))]
+        for k, (a, b) in enumerate(zip(r1, r2)):
+            ta = (a[2] or {}).get("trace")
+            tb = (b[2] or {}).get("trace")
+            fa = a[1].split(" rows=")[0]
+            fb = b[1].split(" rows=")[0]
+            if a[0] != b[0] or ta != tb or fa != fb:
+                out["violations"].append({"oracle": "inserting query commands changed what later commands do",
+                                          "history": lines[i], "without_queries": l2, "step_without_queries": k,
+                                          "with": {"result": a[0], "trace": ta, "files": fa}, "without": {"result": b[0], "trace": tb, "files": fb}})
+                break
+    # lower bound: ood immediately followed by redo-ifchange of listed+other targets
+    for l, r in zip(lines, run_["reals"]):
+        st = serial.steps_of(l)
+        for k in range(len(st) - 1):
+            if st[k][0] == "C" and st[k][1] == "ood" and st[k + 1][0] == "C" and st[k + 1][1] == "ifchange" and r[k][0].startswith("list="):
+                ood = set(x for x in r[k][0][5:].split(",") if x)
+                # known targets at that point = rows with is_generated in the digest
+                known = set()
+                for row in r[k][1].split(" rows=")[1].split(" deps=")[0].split("|"):
+                    f = row.split(":")
+                    if len(f) >= 8 and f[1] == "1" and f[2] == "0" and f[6] == "E":
+                        known.add(f[0])
+                ran = [e.split(":")[1] for e in (r[k + 1][2] or {}).get("trace", [])]
+                out["lower_bound_checked"] += 1
+                missed = [n for n in ran if n in known and n not in ood]
+                if missed:
+                    out["violations"].append({"oracle": "redo-ifchange rebuilt a known target that redo-ood had not listed",
+                                              "history": l, "step": k, "ood": sorted(ood), "ran": ran, "missed": missed})
+    out["violations"] = out["violations"][:3]
+    return out
+
+
 def run(res):
-    serial_check.run(res, "C17")
+    serial_check.run(res, "C17", extra_oracle=paired)
 
 
 replay = serial_check.replay
